@@ -20,13 +20,15 @@ def intD (j : Json) (k : String) : Int :=
 
 def caseOf (j : Json) : R Case := do
   pure { scenario := ← strF j "scenario", panicSite := ← strF j "panicSite", coolDownNs := ← natF j "coolDownNs",
-         intervalNs := ← natF j "intervalNs", latencyNs := ← natF j "latencyNs", services := ← natF j "services" }
+         intervalNs := ← natF j "intervalNs", latencyNs := ← natF j "latencyNs", services := ← natF j "services",
+         auxMax := ← natF j "auxMax" }
 
 /-- canonical observation from the harness's `impl` object -/
 def obsOf (impl : Json) : Obs :=
   let errs := fieldD impl "closeErrs" (Json.mkObj [])
   let leaked := fieldD impl "leaked" (Json.mkObj [])
   let calls := fieldD impl "callsAfterClose" (Json.mkObj [])
+  let after2 := fieldD impl "leakedAfter2nd" (Json.mkObj [])
   let nNR := natD errs "recoverer-not-running"
   let nNS := natD errs "svc-not-started"
   let nOther := natD errs "svc-already-stopped" + natD errs "other"
@@ -36,9 +38,10 @@ def obsOf (impl : Json) : Obs :=
   { survived := boolD impl "survived" false, closeCalled := boolD impl "closeCalled" false, closeReturned := boolD impl "closeReturned" false,
     errNotRunning := nNR, errNotStarted := nNS, errOther := nOther,
     leakedServiceStart := natD leaked "serviceStart", leakedService := natD leaked "service",
-    leakedOther := natD leaked "aux" + natD leaked "inflight",
+    leakedAux := natD leaked "aux", leakedInflight := natD leaked "inflight",
     ticking := decide (totalCalls > 0) || decide (natD impl "subscribed" > 0),
     bubbleEnded := boolD impl "bubbleEnded" false,
+    after2ndServiceStart := natD after2 "serviceStart", after2ndService := natD after2 "service",
     panicsInjected := natD impl "panics", resumed := boolD impl "resumed" false, resumedWithinNs := within.toNat,
     othersTicked := boolD impl "othersTicked" false }
 
@@ -51,11 +54,12 @@ def handle (input impl : Json) : R Reply := do
   let o := obsOf impl
   let died := !o.survived
   -- a panic site whose first panicking call was never reached injects nothing
-  let m := predict cs o.errNotRunning o.errNotStarted (o.closeCalled || (cs.scenario == "close")) (if died then 1 else o.panicsInjected)
+  let m := predict current cs o.errNotRunning o.errNotStarted (o.closeCalled || (cs.scenario == "close")) (if died then 1 else o.panicsInjected)
   let agreeLive :=
     o.closeReturned == m.closeReturned && decide (o.errOther = 0) &&
     decide (o.leakedServiceStart = m.leakedServiceStart) && decide (o.leakedService = m.leakedService) &&
     o.bubbleEnded == m.bubbleEnded &&
+    decide (o.after2ndServiceStart = m.after2ndServiceStart) && decide (o.after2ndService = m.after2ndService) &&
     (!panicClauseApplies cs o || (o.resumed == m.resumed && o.othersTicked == m.othersTicked))
   let agree := o.survived == m.survived && (died || agreeLive)
   let sm := spec cs m
@@ -65,14 +69,10 @@ def handle (input impl : Json) : R Reply := do
   let tags :=
     ["scenario:" ++ cs.scenario] ++
     (if cs.panicSite != "" then ["panic-site:" ++ cs.panicSite] else []) ++
-    (if fail.startsWith "close-before-running:" then ["close-before-running"] else []) ++
-    (if fail.startsWith "close-before-service-start:" then ["close-before-service-start"] else []) ++
-    (if fail.startsWith "close-signal-dropped:" then ["close-signal-dropped"] else []) ++
-    (if fail.startsWith "panic-escaped:" then ["panic-escaped"] else []) ++
-    (if fail.startsWith "panic-not-resumed:" then ["panic-not-resumed"] else []) ++
+    (if si then [] else [(classify cs o).tag]) ++
     (if o.survived && decide (o.panicsInjected > 0) then ["panic-contained"] else []) ++
     (if o.closeReturned && !o.leak then ["clean-close"] else []) ++
-    (if cs.scenario == "panic-close" && decide (closeAt < cs.coolDownNs) then ["close-during-cooldown"] else []) ++
+    (if cs.scenario == "panic-close" && decide (closeAt < cs.coolDownNs) then ["close-soon-after-panic"] else []) ++
     (if natD input "work" > 0 then ["work-in-flight"] else []) ++
     (if cs.scenario == "close" then ["close-at:" ++ closeAtBucket closeAt] else [])
   let key := s!"{cs.scenario}|{cs.panicSite}|{closeAtBucket closeAt}|y{natD input "yields"}|p{natD input "preYields"}|w{natD input "work"}|l{cs.latencyNs}|a{natD input "panicAtCall"}c{natD input "panicCount"}|{closeAt}|nr{o.errNotRunning}ns{o.errNotStarted}"
